@@ -120,13 +120,33 @@ type SSHSession struct {
 func (s *SSHSession) Read(b []byte) (int, error)  { return s.Ch.Read(b) }
 func (s *SSHSession) Write(b []byte) (int, error) { return s.Ch.Write(b) }
 
-// Close is "the peer goes away": the channel is closed, then the whole connection.
+// Close is "the peer goes away" the orderly way: end of data and channel close travel behind the
+// data already written, so nothing the peer sent is cut off. The TCP connection stays up until
+// Shutdown (an abortive close with unread client packets in the socket would make the kernel
+// reset the connection and drop bytes that never reached the client — a peer artefact, not a
+// transport behaviour).
 func (s *SSHSession) Close() error {
 	s.closeOnce.Do(func() {
+		_ = s.Ch.CloseWrite()
 		_ = s.Ch.Close()
-		_ = s.Conn.Close()
 	})
 	return nil
+}
+
+// Shutdown tears the whole connection down (end of a case).
+func (s *SSHSession) Shutdown() {
+	_ = s.Close()
+	_ = s.Conn.Close()
+}
+
+// PeerExit makes the peer end of a byte connection go away without cutting off what it already
+// sent: TCP half-close (FIN behind the data), SSH channel close.
+func PeerExit(c io.Closer) {
+	if t, ok := c.(*net.TCPConn); ok {
+		_ = t.CloseWrite()
+		return
+	}
+	_ = c.Close()
 }
 
 // SSHServer accepts any user / password and hands every session to Sessions.
